@@ -329,7 +329,11 @@ func (fi *FileInfo) checkObjects() error {
 			// cycles, so this stays safe on malformed input.
 			x, endPos, err := fi.doRead(objInfo, fi.makeSafeGetInt(), false)
 			if err != nil {
-				if IsMalformed(err) {
+				// A candidate which ends before it is complete (a truncated
+				// file) yields io.EOF from the scanner.  This says something
+				// about this candidate only, so mark it as broken instead of
+				// giving up on the objects already found.
+				if IsMalformed(err) || err == io.EOF || err == io.ErrUnexpectedEOF {
 					objInfo.Broken = true
 					continue
 				}
